@@ -1,12 +1,15 @@
 PROPERTY = {
     'id': 'C19',
+    'uses': {'xdoctest.doctest_example:DocTest.run': 'C09'},
     'contract_modules': ['doctest_example', 'doctest_part', 'runner'],
     'functions': ['xdoctest.runner:_convert_to_test_module', 'xdoctest.runner:undefined_names',
                   'xdoctest.doctest_part:DoctestPart.format_part', 'xdoctest.utils.util_str:indent',
-                  'xdoctest.doctest_example:DocTest.node'],
+                  'xdoctest.doctest_example:DocTest.node', 'xdoctest.doctest_example:DocTest.is_disabled',
+                  'xdoctest.runner:doctest_module#gather', 'xdoctest.runner:doctest_module', 'xdoctest.doctest_example:DocTest.cmdline'],
     'extra': ['bounded.c19_dump.run'],
     'clauses': {
-        'P': ['_convert_to_test_module: exactly one function text per enabled example, in order (loop invariant len(module_lines) == i); '
+        'P': ['doctest_module (gather region): dump gathers every doctest that is not force-disabled (is_disabled: first-line marker only) and runs nothing',
+              '_convert_to_test_module: exactly one function text per enabled example, in order (loop invariant len(module_lines) == i); '
               'per part, in order: the source lines that remain are exactly the original ones minus the lines containing " import *" '
               '(loop invariant over a recursive filter spec), they are formatted without prompts and without wants, and -- iff the part has a '
               'want -- followed by "# doctest want:" and every want line prefixed "# " (indent = prefix + replace of newlines, proved)',
